@@ -686,15 +686,18 @@ func (s *CatSc) execute(env *core.Env) (ro runOut) {
 		installHooks()
 		drv, err := midicatdrv.New()
 		if err != nil {
-			panic(err)
+			logEvent("driver-unusable", 0, 0, "New: "+err.Error())
+			return
 		}
 		ins, err := drv.Ins()
 		if err != nil {
-			panic(err)
+			logEvent("driver-unusable", 0, 0, "Ins: "+err.Error())
+			return
 		}
 		outs, err := drv.Outs()
 		if err != nil {
-			panic(err)
+			logEvent("driver-unusable", 0, 0, "Outs: "+err.Error())
+			return
 		}
 		// ports are addressed by their number, not by their position in the list
 		byNumIn := func(l []drivers.In) []drivers.In {
@@ -718,13 +721,19 @@ func (s *CatSc) execute(env *core.Env) (ro runOut) {
 		ins, outs = byNumIn(ins), byNumOut(outs)
 		for _, p := range ins {
 			if p == nil {
-				panic("driver does not list the in ports 0..n-1 of the helper")
+				logEvent("driver-unusable", 0, 0, "Ins does not list the in ports 0..n-1 the helper reports")
+				return
 			}
 		}
 		for _, p := range outs {
 			if p == nil {
-				panic("driver does not list the out ports 0..n-1 of the helper")
+				logEvent("driver-unusable", 0, 0, "Outs does not list the out ports 0..n-1 the helper reports")
+				return
 			}
+		}
+		if len(ins) < 2 || len(outs) < 2 {
+			logEvent("driver-unusable", 0, 0, fmt.Sprintf("the helper reports 2 in and 2 out ports, the driver lists %d and %d", len(ins), len(outs)))
+			return
 		}
 		var threads []uint64
 		do := func(thread string, idx int, op string, f func() (error, int64)) {
